@@ -5,7 +5,7 @@ import random
 
 from vf.core.result import Res
 from vf.gen.ir import E, source, walk
-from vf.gen.programs import Gen
+from vf.gen.programs import Gen, stress_program
 from vf.progcheck import Accept, Reject, Unspec, blocks_equal, conservation, model_of, nodetap, run_ir
 
 LEVEL = "exploration"
@@ -101,7 +101,10 @@ def run_shard(shard: dict) -> Res:
     res = Res()
     rng = random.Random(shard["seed"])
     for i in range(shard["n"]):
-        if i % 3 == 0:
+        if i % 19 == 18:
+            p = stress_program(rng)
+            res.see("stress_families", p["family"])
+        elif i % 3 == 0:
             p = directed(rng)
         else:
             g = Gen(rng, weights=WEIGHTS, size=(15, 60), rom=rng.choice(["low", "high", "map"]))
